@@ -22,12 +22,11 @@ from torch.nn.modules.module import _IncompatibleKeys
 
 
 def filter_out_old_keys(self, state_dict, prefix, local_metadata):
-    new_state_dict = {
-        param_name: param_value
-        for param_name, param_value in state_dict.items()
-        if param_name not in self.old_to_new
-    }
-    return new_state_dict
+    # In place and with the prefix: when the module is a sub-module of a model the keys carry
+    # the prefix, and nn.Module.state_dict ignores the value returned by the hook of a child.
+    for old_name in self.old_to_new:
+        state_dict.pop(prefix + old_name, None)
+    return state_dict
 
 
 class RenameParamsMixin:
@@ -93,6 +92,18 @@ class RenameParamsMixin:
             # At the very beginning of instantiation, this will fail because we do not yet have
             # self._parameters. Safe to ignore.
             pass
+
+    def _load_from_state_dict(self, state_dict, prefix, *args, **kwargs):
+        """
+        Called for this module on every load, also when it is a sub-module of the model being
+        loaded. The sub-modules look for their parameters under the old names, which a state
+        dict with the renamed keys does not have: both names denote the same parameter, so
+        the value is offered under the old name as well.
+        """
+        super()._load_from_state_dict(state_dict, prefix, *args, **kwargs)
+        for old_name, new_name in self.old_to_new.items():
+            if prefix + new_name in state_dict and prefix + old_name not in state_dict:
+                state_dict[prefix + old_name] = state_dict[prefix + new_name]
 
     def load_state_dict(
         self,
